@@ -804,3 +804,75 @@ Proof.
   cbv zeta. split; [repeat constructor|]. split; [|vm_compute; reflexivity].
   intros v Hv. cbn in Hv. repeat (destruct Hv as [<-|Hv]; [reflexivity|]). destruct Hv.
 Qed.
+
+(* ------------------------------------------------------------------------
+   The client-visible failure reasons of the HTTP parsers are a FIXED list of
+   constants: whatever the request bytes, a rejection carries one of these 15
+   texts - nothing of the request is ever echoed, and every text is 7-bit ASCII
+   (so also a valid Prometheus label value: C13). *)
+Definition http_client_errors : list err :=
+  [ClientErr E_event; ClientErr E_no_ih; ClientErr E_multi_ih; ClientErr E_no_peer_id; ClientErr E_bad_peer_id;
+   ClientErr E_left; ClientErr E_downloaded; ClientErr E_uploaded; ClientErr E_numwant; ClientErr E_port; ClientErr E_ip;
+   ErrInvalidIP; ErrInvalidPort; ErrInvalidInfohash; ErrInvalidQueryEscape].
+
+Definition ascii_text (m : bytes) : bool := forallb (fun c => (32 <=? c) && (c <? 127)) m.
+Lemma http_client_errors_ascii :
+  Forall (fun e => exists m, e = ClientErr m /\ ascii_text m = true) http_client_errors.
+Proof. repeat constructor; eexists; split; reflexivity. Qed.
+
+Definition fixed_outcome {A} (x : outcome A) : Prop :=
+  (exists a, x = Accept a) \/ (exists e, x = Reject e /\ In e http_client_errors).
+
+Ltac in_errs := cbn [http_client_errors In]; repeat (first [left; reflexivity | right]).
+
+Lemma sanitize_announce_fixed r mx df e : sanitize_announce r mx df = inl e -> In e http_client_errors.
+Proof.
+  unfold sanitize_announce. destruct (p_port (r_peer r) =? 0); [intros H; injection H as <-; in_errs|].
+  destruct (to4 _); [discriminate|]. destruct (Nat.eqb _ 16); [discriminate|].
+  intros H; injection H as <-; in_errs.
+Qed.
+
+Section Fixed.
+  Variable parse_ip : bytes -> option bytes.
+  Variable header_get : bytes -> bytes.
+  Variable split_host : bytes -> bytes.
+
+  Lemma fixed_cerr {A} msg : In (ClientErr msg) http_client_errors -> fixed_outcome (@cerr A msg).
+  Proof. intros H. right. eexists. split; [reflexivity|exact H]. Qed.
+
+  Lemma announce_of_params_fixed o q remote :
+    fixed_outcome (announce_of_params parse_ip header_get split_host o q remote).
+  Proof.
+    unfold announce_of_params.
+    repeat first
+      [ progress cbv zeta
+      | apply fixed_cerr; in_errs
+      | match goal with
+        | H : sanitize_announce _ _ _ = inl ?e |- fixed_outcome (Reject ?e) =>
+          apply sanitize_announce_fixed in H; right; eexists; split; [reflexivity|exact H]
+        | |- fixed_outcome (Accept _) => left; eexists; reflexivity
+        | |- fixed_outcome (if negb (Nat.eqb (length ?pid) 20) then _ else _) =>
+          unfold id_from_string; destruct (Nat.eqb (length pid) 20); cbn [negb]
+        | |- fixed_outcome (match ?x with _ => _ end) => destruct x eqn:?
+        end ].
+  Qed.
+
+  Theorem http_announce_reject_texts_fixed o uri remote :
+    fixed_outcome (parse_announce parse_ip header_get split_host o uri remote).
+  Proof.
+    unfold parse_announce. destruct (parse_url_data uri) as [e|q] eqn:E.
+    - apply parse_url_data_err in E as [->| ->]; right; eexists; (split; [reflexivity|in_errs]).
+    - destruct (announce_of_params_fixed o q remote) as [[a ->]|(e & -> & He)].
+      + left; eexists; reflexivity.
+      + right; eexists; split; [reflexivity|exact He].
+  Qed.
+
+  Theorem http_scrape_reject_texts_fixed o uri : fixed_outcome (parse_scrape o uri).
+  Proof.
+    unfold parse_scrape. destruct (parse_url_data uri) as [e|q] eqn:E.
+    - apply parse_url_data_err in E as [->| ->]; right; eexists; (split; [reflexivity|in_errs]).
+    - unfold scrape_of_params. destruct (q_ihs q).
+      + apply fixed_cerr. in_errs.
+      + left; eexists; reflexivity.
+  Qed.
+End Fixed.
